@@ -461,12 +461,12 @@ def gen_bigblock(rng, k=99):
     recipe = rng.choice([1, 1, 4, 4, 6, 3])
     simd = rng.below(2)
     n = rng.choice([1 << 20, (1 << 20) + 1, 1100000, (1 << 21) + 5, 1500000])
-    if k < 2:            # the two plans with the most phases (L = 2048, 1024) are in every run
-        (ir, orr), n = BIG_RATIOS[k], [1100000, (1 << 21) + 5][k]
+    if k < 2:            # the two plans with the most phases (L = 2048, 1024) are in every run, whole block accepted
+        (ir, orr), n, recipe = BIG_RATIOS[k], [1100000, (1 << 21) + 5][k], 4
     ratio = float(ir) / float(orr)
     olen = int(n / ratio) + 100
     line = "create ir=%r or=%r ch=1 itype=0 otype=0 recipe=%d qflags=0 min=10 large=17 rtflags=0 ioflags=0 scale=1 mis=0 avoid=1" % (ir, orr, recipe)
-    idone = rng.below(2)
+    idone = rng.below(2) if k >= 2 else 0
     ops = [line, "proc 1 %d %d %d %d" % (rng.below(2), idone, n, olen if not idone else rng.choice([olen, olen // 3])), "proc 0 0 0 0 %d" % olen, "proc 0 0 0 0 1000"]
     m = {"cls": "whole-file-block", "simd": simd, "itype": 0, "otype": 0, "ch": 1, "vr": False, "recipe": recipe, "qflags": 0, "phase": 50,
          "ir": ir, "orr": orr, "large": 17, "min": 10, "pull": False, "deferred": False}
